@@ -22,6 +22,7 @@ from lib.vlib import WORK, Check, build_harness, check_props, coq_eval, coq_eval
 PID = 'C15'
 KNOWN = 'C15-nested-or-later-alt'
 KNOWN2 = 'C15-rename-rewrites-as-same-name'
+KNOWN3 = 'C15-interface-parameter-not-renamed'
 AS_SAME = re.compile(r'\b([a-z]\w*) as \1\b')
 FRESH = ['zq', 'zq1', 'zq2', 'zzq9']
 COMPARABLE = ('return', 'panic', 'vec-bounds')
@@ -228,10 +229,11 @@ def imports_closure(sources, root):
 def tests_programs(rng, nfiles):
     """/repo/tests/X.sam as the module under analysis, with a driver that runs the test class's `run`."""
     srcs = repo_dir_sources('tests', 'tests.')
+    srcs.update(repo_dir_sources('std', 'std.'))      # std.set is not among the embedded std sources
     alltests = srcs.get('tests.AllTests', '')
     cls_of = dict((m, c) for c, m in re.findall(r'import\s*\{\s*(\w+)\s*\}\s*from\s+(tests\.\w+)', alltests))
     runs = set(re.findall(r'TestCase\.init\("[^"]*",\s*(\w+)\.run\)', alltests))
-    names = [m for m in sorted(srcs) if m != 'tests.AllTests']
+    names = [m for m in sorted(srcs) if m != 'tests.AllTests' and m.startswith('tests.')]
     if nfiles is not None and nfiles < len(names):
         names = rng.shuffle(names)[:nfiles]
     out = []
@@ -280,6 +282,13 @@ def tokens_with_pos(text):
 def same_up_to_as_same(t0, t1):
     """the two documents have the same tokens once every `f as f` is written `f`"""
     n0, n1 = AS_SAME.sub(r'\1', t0), AS_SAME.sub(r'\1', t1)
+    return [t for t, _, _ in tokens_with_pos(n0)] == [t for t, _, _ in tokens_with_pos(n1)]
+
+
+def same_program_up_to_own_shorthand(t0, t1, name):
+    """same tokens once `name as name` (the object-pattern element binding the renamed variable) is written `name`"""
+    rx = re.compile(r'\b%s\s+as\s+%s\b' % (re.escape(name), re.escape(name)))
+    n0, n1 = rx.sub(name, t0), rx.sub(name, t1)
     return [t for t, _, _ in tokens_with_pos(n0)] == [t for t, _, _ in tokens_with_pos(n1)]
 
 
@@ -378,9 +387,13 @@ def monitor_program(ck, prog, res, label, behaviours):
                                 dict(rinp, renamed=full['text']), expected=res['diagnostics'], observed=r.get('diagnostics'),
                                 klass=klass if only_or else None)
             continue
-        if r.get('back_equal') is not True:
-            bt = r.get('back_text')
-            k2 = KNOWN2 if (as_same and isinstance(bt, str) and same_up_to_as_same(res['text'], bt)) else klass
+        bt = r.get('back_text')
+        if r.get('back_equal') is not True and isinstance(bt, str) and same_program_up_to_own_shorthand(res['text'], bt, o['name']):
+            # `{ x as x }` and `{ x }` are two spellings of one pattern; the element that binds the renamed variable comes
+            # back in the short spelling (upstream's rename_test_2 pins that collapse). Same program, so not a failure.
+            ck.count('rename-back-equal-up-to-own-shorthand')
+        elif r.get('back_equal') is not True:
+            k2 = klass
             ck.property_failure('rename %s and back to %s does not restore the text' % (where, o['name']),
                                 dict(rinp, renamed=full['text']), expected=res['text'], observed=r.get('back_text', r.get('back_panic')), klass=k2)
         by_binder.setdefault((d, r['new']), set()).add(tid)
@@ -396,6 +409,9 @@ def monitor_program(ck, prog, res, label, behaviours):
             if ch is None and as_same and same_up_to_as_same(res['text'].replace(o['name'], r['new']), full['text'].replace(o['name'], r['new'])):
                 ck.property_failure('rename %s also rewrites an unrelated `f as f` pattern into `f`' % where,
                                     dict(rinp, renamed=full['text']), klass=KNOWN2)
+            elif ch == [] and occs[[i for i, oo in enumerate(occs) if tuple(oo['loc']) == d][0]]['kind'] == 'iparam' if d in [tuple(oo['loc']) for oo in occs] else False:
+                ck.property_failure('rename %s returns the document unchanged: parameters of interface method signatures are not renamed' % where,
+                                    dict(rinp, renamed=full['text']), klass=KNOWN3)
             elif ch is None or sorted(p for p, _, _ in ch) != want or any(n != r['new'] or old != o['name'] for _, old, n in ch):
                 ck.property_failure('rename %s: the tokens that changed are not exactly the binder and its uses' % where,
                                     dict(rinp, renamed=full['text']), expected=[list(x) for x in want],
@@ -439,6 +455,8 @@ def rename_observations(ck, res, events, label):
             continue
         if r.get('syntax_errors'):
             continue
+        if o['kind'] == 'iparam':
+            continue        # open finding C15-interface-parameter-not-renamed; reported by the monitor
         if not r.get('shape_ok'):
             ck.disagree('rename: trace after rewrite::rename + re-analysis vs original trace (shape)',
                         {'label': label, 'text': res['text'], 'occurrence': o, 'new': r['new'], 'renamed': r['text']},
